@@ -140,3 +140,51 @@ def rare_rle(rng, labs):
             t.append([rng.choice([x for x in rest if x != b]), rng.randint(1, 4)])
     t.append([a, rng.randint(2, 9)])
     return [t]
+
+
+def empty_positions(rng, ntraj):
+    """positions (indices into the final list) at which zero-length trajectories are inserted:
+    front, middle, end, or several (typed integer arrays of length 0 are accepted input)"""
+    kind = rng.choice(['end', 'end', 'front', 'middle', 'middle', 'both', 'double-middle'])
+    total = ntraj
+    pos = []
+    if kind in ('front', 'both'):
+        pos.append(0)
+    if kind in ('middle', 'double-middle') and ntraj >= 2:
+        pos.append(rng.randint(1, ntraj - 1))
+        if kind == 'double-middle':
+            pos.append(pos[-1])
+    if kind in ('end', 'both') or not pos:
+        pos.append(total)
+    return sorted(pos)
+
+
+def insert_empties(trajs, pos):
+    out = [list(t) for t in trajs]
+    for k, p in enumerate(sorted(pos)):
+        out.insert(min(p + k, len(out)), [])
+    return out
+
+
+def many_short(rng, labs, lag):
+    """more than 256 trajectories, the first ones shorter than the lag"""
+    n = rng.randint(257, 330)
+    trajs = [[rng.choice(labs) for _ in range(rng.randint(1, max(1, lag - 1)))] for _ in range(rng.randint(1, 2))]
+    while len(trajs) < n:
+        trajs.append([rng.choice(labs) for _ in range(rng.randint(1, 9))])
+    return trajs
+
+
+def with_layouts(rng, cases, p_alt=0.15, p_lumped=0.0):
+    """orthogonal input classes: the same trajectories in another memory layout (Fortran / transposed
+    2-d arrays, strided views) and - where the analysis accepts it - as a LumpedStateTraj whose
+    macrostate trajectories they are"""
+    for case in cases:
+        if isinstance(case, dict) and case.get('alpha') != 'enum' and 'layout' not in case and not case.get('lumped'):
+            r = rng.random()
+            if r < p_alt and case.get('form') in ('arr2', 'arr1', 'loa'):
+                case['layout'] = 'alt'
+            elif p_alt <= r < p_alt + p_lumped and case.get('form') in ('loa', 'obj', 'toa', 'lol') and not case.get('dtypes') \
+                    and all(len(t) for t in case.get('trajs', [[]])):
+                case['layout'] = 'lumped'
+        yield case
